@@ -925,12 +925,21 @@ def cumsum(a, axis=None):
     return _conv(out).view(SymArray) if out else _np.empty((0,), dtype=object).view(SymArray)
 
 
-def trace(a):
+def trace(a, offset=0, axis1=0, axis2=1, **k):
     A = _plain(a)
-    s = 0
-    for i in range(_b.min(A.shape[0], A.shape[1])):
-        s = s + A[i, i]
-    return s
+    if offset != 0 or k:
+        raise NotEncodable("trace(offset / dtype / out)")
+    if A.ndim == 2 and (axis1, axis2) in ((0, 1), (1, 0)):
+        s = 0
+        for i in range(_b.min(A.shape[0], A.shape[1])):
+            s = s + A[i, i]
+        return s
+    if A.ndim == 3 and (axis1, axis2) in ((1, 2), (2, 1), (-2, -1)):
+        out = _np.empty((A.shape[0],), dtype=object)
+        for j in range(A.shape[0]):
+            out[j] = trace(A[j])
+        return out.view(SymArray)
+    raise NotEncodable("trace of a %d-d array along axes %r, %r" % (A.ndim, axis1, axis2))
 
 
 def diag(a):
